@@ -63,7 +63,7 @@ pub fn session(rng: &mut Rng) -> Generated {
         let a = rng.range(1, 50);
         let b = rng.range(1, 50);
         let times = rng.range(0, 3);
-        match rng.below(25) {
+        match rng.below(29) {
             0 => {
                 names.push("early-exit");
                 let limit = rng.range(0, 8);
@@ -423,6 +423,65 @@ pub fn session(rng: &mut Rng) -> Generated {
                         t = t,
                         a = a,
                         b = 20 + b
+                    ),
+                );
+            }
+            25 | 26 => {
+                // a continuation captured in the init of a binding and re-entered with other values:
+                // every pass through let / let* / a lambda application binds a fresh variable (closures
+                // of earlier passes keep theirs); an internal definition assigns the one variable of
+                // its activation again
+                names.push("binder-init-reentry");
+                reentry = true;
+                let binder = match rng.below(5) {
+                    0 => "(let ((a 10) (b (+ 100 (call/cc (lambda (c) (set! bk{t} c) 1))))) BODY)",
+                    1 => "(let* ((a 10) (b (+ a (call/cc (lambda (c) (set! bk{t} c) 1))))) BODY)",
+                    2 => "(let* ((a 10) (z 5) (b (+ a z (call/cc (lambda (c) (set! bk{t} c) 1))))) BODY)",
+                    3 => "((lambda (a b) BODY) 10 (+ 100 (call/cc (lambda (c) (set! bk{t} c) 1))))",
+                    _ => "(let ((a 10)) (define b (+ a (call/cc (lambda (c) (set! bk{t} c) 1)))) BODY)",
+                };
+                let body = "(begin (set! bclos{t} (cons (lambda () (list a b)) bclos{t})) (set! b (+ b 1000)) (length bclos{t}))";
+                let text = format!(
+                    "(define bk{t} #f)
+                     (define bclos{t} '())
+                     (define (bpass{t}) {binder})
+                     (bpass{t})
+                     (if (< (length bclos{t}) 3) (bk{t} (* 10 (length bclos{t}))) 'done)
+                     (if (< (length bclos{t}) 3) (bk{t} (* 10 (length bclos{t}))) 'done)
+                     (map (lambda (p) (p)) bclos{t})",
+                    t = t,
+                    binder = binder.replace("BODY", body).replace("{t}", &t.to_string())
+                );
+                p(&mut forms, &text);
+            }
+            27 | 28 => {
+                // a continuation captured in one iteration of a loop and re-entered after the loop
+                // has gone on: the resumed iteration reads its own loop variables
+                names.push("capture-in-loop-iteration");
+                reentry = true;
+                let cap = format!("(if (= i {at}) (call/cc (lambda (c) (set! ik{t} c) i)) i)", at = 1 + (a % 3), t = t);
+                let def = match rng.below(4) {
+                    0 => format!("(define (iloop{t} i acc) (if (= i 5) (reverse acc) (iloop{t} (+ i 1) (cons (list {cap} i) acc))))", t = t, cap = cap),
+                    1 => format!("(define (iloop{t} i acc) (cond ((= i 5) (reverse acc)) (else (iloop{t} (+ i 1) (cons (list {cap} i) acc)))))", t = t, cap = cap),
+                    2 => format!("(define (iloop{t} i0 acc0) (let loop ((i i0) (acc acc0)) (if (= i 5) (reverse acc) (loop (+ i 1) (cons (list {cap} i) acc)))))", t = t, cap = cap),
+                    _ => format!(
+                        "(define (iloop{t} i acc) (if (= i 5) (reverse acc) (iloop{t}-b (+ i 1) (cons (list {cap} i) acc))))
+                         (define (iloop{t}-b i acc) (if (= i 5) (reverse acc) (iloop{t} (+ i 1) (cons (list {cap} i) acc))))",
+                        t = t,
+                        cap = cap
+                    ),
+                };
+                p(
+                    &mut forms,
+                    &format!(
+                        "(define ik{t} #f)
+                         (define in{t} 0)
+                         {def}
+                         (iloop{t} 0 '())
+                         (if (< in{t} 2) (begin (set! in{t} (+ in{t} 1)) (ik{t} (* in{t} 100))) 'stop)
+                         (if (< in{t} 2) (begin (set! in{t} (+ in{t} 1)) (ik{t} (* in{t} 100))) 'stop)",
+                        t = t,
+                        def = def
                     ),
                 );
             }
